@@ -30,6 +30,7 @@ def run_symbolic(irmod, spec, symmap, machine_hook=None):
     if machine_hook:
         machine_hook(M)
     bufs = {}
+    pending_parts = []
     for name, ty, init in spec['bufs']:
         if ty == 'double':
             if isinstance(init, int):
@@ -49,6 +50,8 @@ def run_symbolic(irmod, spec, symmap, machine_hook=None):
                 bufs[name] = M.new_ints(name, list(init), kind='input', writable=False)
         elif ty == 'u8':
             bufs[name] = M.new_ints(name, list(init), kind='input', writable=False, width=1)
+        elif ty == 'parts':     # DTWWps computed by the C code itself for (l1, l2) and the settings of the specification
+            pending_parts.append((name, init))
         elif ty == 'ptrs':
             o = M.alloc(name, 8 * len(init), 'input', False)
             for i, b in enumerate(init):
@@ -57,6 +60,11 @@ def run_symbolic(irmod, spec, symmap, machine_hook=None):
         else:
             raise KeyError(ty)
     st = irsym.mk_settings(M, **{k: _sym(v, symmap) for k, v in spec.get('settings', {}).items()})
+    for name, (pl1, pl2) in pending_parts:
+        o = M.alloc(name, irmod.sizeof('%struct.DTWWps_s'), 'output', True)
+        bufs[name] = irsym.Ptr(o, 0)
+        M.run('dtw_wps_parts', [bufs[name], pl1, pl2, st])
+        o.writable = False
     blk = None
     if spec.get('block') is not None:
         b = spec['block']
@@ -136,6 +144,8 @@ def to_c(spec, values):
             L.append('  ba_t *%s = (ba_t*)malloc(%d);' % (name, len(init)))
             for i, v in enumerate(init):
                 L.append('  %s[%d] = %d;' % (name, i, int(v)))
+        elif ty == 'parts':
+            L.append('  DTWWps *%s = (DTWWps*)malloc(sizeof(DTWWps)); *%s = dtw_wps_parts(%d, %d, &settings);' % (name, name, init[0], init[1]))
         elif ty == 'ptrs':
             L.append('  seq_t **%s = (seq_t**)malloc(sizeof(seq_t*) * %d);' % (name, len(init)))
             for i, b in enumerate(init):
